@@ -4,7 +4,7 @@
    environment a rule-abiding server and an adversarial scheduler (callers, server timing,
    notifications, select! choice, timer expiry).  [reply_fn] is the server's reply to a request:
    universally quantified. *)
-From MPD Require Import Bytes Tables BuilderModel LoopModel LoopProofs LoopSpec LoopSpecProofs ServerModel DriverLoop LoopRefine LoopRefineProofs LoopCancel LoopCancelProofs.
+From MPD Require Import Bytes Tables BuilderModel LoopModel LoopProofs LoopSpec LoopSpecProofs ServerModel DriverLoop LoopRefine LoopRefineProofs LoopCancel LoopCancelProofs LoopMute LoopMuteProofs.
 Open Scope N_scope.
 
 (* for EVERY schedule the server never receives anything but noidle while it waits in idle *)
@@ -129,6 +129,35 @@ Theorem c05_exec_cancel_wire : forall cf ls, cancel_ok [] ls = true ->
   x_srv (fst (xrun (xinit cf) ls)) = x_srv (fst (xrun (xinit cf) (map erase_label ls))).
 Proof. exact exec_cancel_w. Qed.
 
+(* ---- the application drops its ConnectionEvents (label Z) — LoopMute.v ----
+   THE theorem: from any connected state, for every label list without q / Q (faults, cancellations, handle drop, typed lists and
+   album art included), the run in which the listener is dropped is the run in which it is kept ([mute_run]: Z replaced by a no-op),
+   with the events after the drop not shown — same writes, same caller results, same connection, queue, callers and server. *)
+Theorem c05_listener_erasure : forall ls (m : bool) h x, MInv x -> mute_ok ls = true ->
+  exists h', xrun (if m then mute h x else x) ls =
+             ((if m || existsb is_drop ls then mute h' (fst (mute_run m x ls)) else fst (mute_run m x ls)), snd (mute_run m x ls)).
+Proof. exact mute_erasure. Qed.
+
+(* inside the fault-free fragment: the session goes on unchanged after the listener has gone — the requests are written and answered
+   (results = replies to a prefix of the issued requests in issue order), the bytes on the wire are those of the run with the listener
+   kept (so idle is still re-issued after every reply and every notification), the server is never violated, nothing panics *)
+Theorem c05_exec_listener_dropped : forall cf ls gls, mute_ok ls = true -> in_fragment cf (map mute_label ls) gls ->
+  let segs := snd (xrun (xinit cf) ls) in
+  (exists k, flat_map g_res segs = map (echo_result cf) (firstn k (flat_map issued_of gls))) /\
+  map g_w segs = map g_w (snd (xrun (xinit cf) (map mute_label ls))) /\
+  Forall (fun g => g_panic g = false) segs /\
+  s_violated (x_srv (fst (xrun (xinit cf) ls))) = false.
+Proof. exact exec_mute_session. Qed.
+
+Example c05_listener_example :
+  mute_ok ex_mute_labs = true /\
+  flat_map g_res (snd (xrun (xinit ex_cf) ex_mute_labs)) =
+    map (echo_result ex_cf) [mkReq 1 (b "status" ++ [LF]); mkReq 2 (b "stats" ++ [LF]); mkReq 3 (b "currentsong" ++ [LF])] /\
+  flat_map g_ev (snd (xrun (xinit ex_cf) ex_mute_labs)) = map ev_text [b "player"] /\
+  flat_map g_ev (snd (xrun (xinit ex_cf) (map mute_label ex_mute_labs))) = map ev_text [b "player"; b "mixer"] /\
+  flat_map g_w (snd (xrun (xinit ex_cf) ex_mute_labs)) = flat_map g_w (snd (xrun (xinit ex_cf) (map mute_label ex_mute_labs))).
+Proof. exact ex_mute. Qed.
+
 Print Assumptions c05_legal_session.
 Print Assumptions c05_idle_only_noidle.
 Print Assumptions c05_one_outstanding.
@@ -143,3 +172,5 @@ Print Assumptions c05_exec_wire.
 Print Assumptions c05_exec_trace_text.
 Print Assumptions c05_exec_no_panic.
 Print Assumptions c05_exec_cancel_wire.
+Print Assumptions c05_listener_erasure.
+Print Assumptions c05_exec_listener_dropped.
